@@ -54,7 +54,13 @@ func gen(t *rapid.T) Case {
 		if (k == "close" || k == "kill") && rapid.IntRange(0, 2).Draw(t, "rare") != 0 {
 			k = "flush"
 		}
+		if k == "kill" && c.Sinks >= 2 {
+			k = "killsink" // one destination of the multi transport goes away (N: which one)
+		}
 		op := Op{K: k, B: rapid.Byte().Draw(t, "b")}
+		if k == "killsink" {
+			op.N = rapid.IntRange(0, c.Sinks-1).Draw(t, "which")
+		}
 		if k == "write" || k == "writestring" {
 			op.N = sizeGen().Draw(t, "n")
 		}
@@ -131,6 +137,18 @@ func run(c Case) (pbt.Outcome, error) {
 	faultThenSuccess := false
 	faultSeen := false
 	staleClass := false
+	// multi transport with a destination that went away: from then on sends to it fail (every other
+	// one, ECONNREFUSED) and Flush reports that. The LIVE destinations are judged by a validity
+	// predicate: the datagrams a live sink receives are, in order, messages that were flushed
+	// (each complete, alone, byte-equal - never two messages glued together), and every message
+	// whose Flush returned nil arrived.
+	dead := map[int]bool{}
+	type flushedMsg struct {
+		data []byte
+		ok   bool
+	}
+	var flushed []flushedMsg
+	seq := 0
 
 	checkArrived := func(what string) {
 		for si, s := range sinks {
@@ -230,12 +248,32 @@ func run(c Case) (pbt.Outcome, error) {
 					model = append(model, op.B)
 				}
 			}
+			if len(dead) > 0 && !closed {
+				// a message whose Flush failed may or may not reach the live destinations: make every
+				// message unique (sequence-number trailer) so that matching datagrams to messages is unambiguous
+				seq++
+				trailer := []byte{0xF5, byte(seq >> 8), byte(seq), 0x5F}
+				if len(model)+len(trailer) <= thriftudp.MaxLength {
+					if _, werr := tr.Write(trailer); werr == nil {
+						model = append(model, trailer...)
+					} else {
+						errs.Addf("%s: a %d-byte write with %d bytes buffered was refused: %v", what, len(trailer), len(model), werr)
+					}
+				}
+			}
 			err := tr.Flush()
 			switch {
 			case closed:
 				if err == nil {
 					errs.Addf("%s after Close succeeded", what)
 				}
+			case len(dead) > 0:
+				faultSeen = true
+				if len(model) > 0 {
+					flushed = append(flushed, flushedMsg{append([]byte(nil), model...), err == nil})
+				}
+				model = nil
+				time.Sleep(150 * time.Microsecond) // let the ICMP error of a send to the dead destination come back
 			case killed:
 				faultSeen = true
 				model = nil // whatever happened, the buffer must be empty now (checked by the capacity probe below)
@@ -260,7 +298,7 @@ func run(c Case) (pbt.Outcome, error) {
 				model = nil
 			}
 			// after any Flush, ok or failed, the buffer is empty: a maximal write must fit
-			if !closed && !killed && c.Sinks == 0 && oi%3 == 0 {
+			if !closed && !killed && (c.Sinks == 0 || len(dead) > 0) && oi%3 == 0 {
 				probe := payload(thriftudp.MaxLength, 9)
 				if _, err := tr.Write(probe); err != nil {
 					errs.Addf("%s: after the flush a %d-byte write is refused (%v): the buffer was not emptied", what, thriftudp.MaxLength, err)
@@ -280,6 +318,12 @@ func run(c Case) (pbt.Outcome, error) {
 			if tr.IsOpen() {
 				errs.Addf("IsOpen() is true after Close")
 			}
+		case "killsink":
+			if c.Sinks < 2 || closed || len(dead) == c.Sinks-1 || dead[op.N%c.Sinks] {
+				continue // keep at least one live destination
+			}
+			dead[op.N%c.Sinks] = true
+			sinks[op.N%c.Sinks].Close()
 		case "kill":
 			if single == nil || closed {
 				continue
@@ -293,10 +337,58 @@ func run(c Case) (pbt.Outcome, error) {
 	}
 	// nothing beyond the expected datagrams
 	time.Sleep(300 * time.Microsecond)
+	if len(dead) > 0 && !errs.Failed() {
+		must := 0
+		for _, m := range flushed {
+			if m.ok {
+				must++
+			}
+		}
+		for si, s := range sinks {
+			if dead[si] {
+				continue
+			}
+			s.WaitCount(expected+must, 2*time.Second)
+			time.Sleep(300 * time.Microsecond)
+			got := s.Datagrams()
+			if len(got) < expected {
+				errs.Addf("live sink %d has %d datagrams, %d were sent before a sibling destination went away", si, len(got), expected)
+				continue
+			}
+			fi := 0
+			for gi, d := range got[expected:] {
+				for fi < len(flushed) && !bytes.Equal(flushed[fi].data, d) {
+					if flushed[fi].ok {
+						errs.Addf("live sink %d: message %d (%d bytes %s), whose Flush returned nil, never arrived (or arrived out of order)", si, fi, len(flushed[fi].data), head(flushed[fi].data))
+					}
+					fi++
+				}
+				if fi == len(flushed) {
+					errs.Addf("live sink %d: datagram %d after a sibling destination went away has %d bytes %s and is not one of the flushed messages, complete and alone (flushed sizes %v)", si, gi, len(d), head(d), sizes(flushed, func(m flushedMsg) int { return len(m.data) }))
+					break
+				}
+				fi++
+			}
+			for ; fi < len(flushed) && !errs.Failed(); fi++ {
+				if flushed[fi].ok {
+					errs.Addf("live sink %d: message %d (%d bytes), whose Flush returned nil, never arrived", si, fi, len(flushed[fi].data))
+				}
+			}
+		}
+		if len(flushed) > 0 {
+			faultThenSuccess = true
+		}
+	}
 	for si, s := range sinks {
+		if len(dead) > 0 {
+			break
+		}
 		if got := s.Count(); got != expected && !errs.Failed() {
 			errs.Addf("sink %d received %d datagrams in total, want %d", si, got, expected)
 		}
+	}
+	if len(dead) > 0 {
+		out.Classes = append(out.Classes, "multi-destination-went-away")
 	}
 	out.NonTrivial = faultThenSuccess
 	out.Classes = append(out.Classes, fmt.Sprintf("sinks=%d", c.Sinks))
@@ -304,6 +396,14 @@ func run(c Case) (pbt.Outcome, error) {
 		out.Classes = append(out.Classes, "fault")
 	}
 	return out, errs.Err()
+}
+
+func sizes[T any](xs []T, f func(T) int) []int {
+	r := make([]int, len(xs))
+	for i, x := range xs {
+		r[i] = f(x)
+	}
+	return r
 }
 
 func head(b []byte) string {
@@ -316,7 +416,7 @@ func head(b []byte) string {
 func TestC15(t *testing.T) {
 	pbt.Main(t, pbt.Prop[Case]{
 		ID: "C15", Name: "transport",
-		Rule: "rapid-generated histories (1..14 ops + a closing 5-byte message) on a TUDPTransport or a TMultiUDPTransport with 1..3 real loopback UDP sinks: Write/WriteString/WriteByte with sizes around the 65000-byte limit (64999, 65000, 65001, halves, 60000..66000) and small, Flush, Close, killing the socket behind the transport, and the writer abandoning a message after an error. Reference model: buffer = concatenation of accepted writes since the last Flush; each successful Flush => exactly one byte-equal datagram at every sink; after any Flush a 65000-byte write fits again (buffer emptied whether or not the send succeeded); an over-long write is refused with an error and adds nothing; after Close every call fails with NOT_OPEN and Close is idempotent; no stray datagrams. A message abandoned after a refused write with bytes already buffered is the recorded stale-prefix finding: excluded only while listed open. Non-trivial: a fault (refused write, failed send) followed by a successful message. Distinct: FNV-64 of the case JSON.",
+		Rule: "rapid-generated histories (1..14 ops + a closing 5-byte message) on a TUDPTransport or a TMultiUDPTransport with 1..3 real loopback UDP sinks: Write/WriteString/WriteByte with sizes around the 65000-byte limit (64999, 65000, 65001, halves, 60000..66000) and small, Flush, Close, killing the socket behind the transport (single) or one destination of a multi transport going away (sends to it fail; the live destinations must keep receiving every later message complete, alone and byte-equal, and every message whose Flush returned nil), and the writer abandoning a message after an error. Reference model: buffer = concatenation of accepted writes since the last Flush; each successful Flush => exactly one byte-equal datagram at every sink; after any Flush a 65000-byte write fits again (buffer emptied whether or not the send succeeded); an over-long write is refused with an error and adds nothing; after Close every call fails with NOT_OPEN and Close is idempotent; no stray datagrams. A message abandoned after a refused write with bytes already buffered is the recorded stale-prefix finding: excluded only while listed open. Non-trivial: a fault (refused write, failed send) followed by a successful message. Distinct: FNV-64 of the case JSON.",
 		Gen:  gen, Run: run,
 	})
 }
